@@ -189,6 +189,9 @@ impl Ref {
             } else {
                 "classes=all-populated"
             }
+        } else if self.labels.windows(2).any(|w| w[0] as f32 == w[1] as f32) {
+            // two distinct labels (the list is sorted and deduplicated) that coincide once rounded to f32
+            "labels=adjacent-beyond-f32"
         } else if self.labels.iter().enumerate().all(|(i, l)| *l == i as f64) {
             "labels=0..k-1"
         } else if self.labels.iter().any(|l| *l < 0.0) {
@@ -267,8 +270,23 @@ fn match_classes(v: &str, lc: &str, inst: &Inst, rf: &Ref, obs: &Obs) -> Option<
     Some(m2r)
 }
 
+/// Variance tolerance of the tiny-spread family, relative to the reference (two-pass, spread-based)
+/// variance. The unchanged library's one-pass formula loses about eps * (mean/sd)^2 relative accuracy,
+/// i.e. <= 1e-5 for |mean|/sd <= 1.3e5 (the members outside the known cancellation region).
+const SPREAD_REL_TOL: f64 = 1e-3;
+
 /// The full oracle of the statement.
 pub fn check(inst: &Inst, obs: &Obs, pred: &Pred) {
+    check_with(inst, obs, pred, false)
+}
+
+/// The full oracle with the Gaussian variance judged relative to the SPREAD-based reference variance
+/// (instead of 1e-11 * max|x|^2, which a tiny spread under a large offset would make vacuous).
+pub fn check_spread(inst: &Inst, obs: &Obs, pred: &Pred) {
+    check_with(inst, obs, pred, true)
+}
+
+fn check_with(inst: &Inst, obs: &Obs, pred: &Pred, spread: bool) {
     let v = inst.v.name();
     let n = inst.x.len();
     let p = inst.x[0].len();
@@ -287,6 +305,8 @@ pub fn check(inst: &Inst, obs: &Obs, pred: &Pred) {
     };
     let k = rf.labels.len();
     let mut tol = Tol { worst: 0.0 };
+    // Gaussian: largest |class mean| / class sd over (class, feature)
+    let mut max_ratio = 0.0f64;
 
     // ---- non-vacuity counters (decided from the input only)
     if lc != "labels=0..k-1" && inst.v != V::C {
@@ -294,6 +314,12 @@ pub fn check(inst: &Inst, obs: &Obs, pred: &Pred) {
     }
     if lc == "labels=negative" {
         mc::count("labels_negative");
+    }
+    if lc == "labels=adjacent-beyond-f32" {
+        mc::count("labels_adjacent_beyond_f32_instances");
+        if k >= 3 {
+            mc::count("labels_adjacent_beyond_f32_k_ge_3");
+        }
     }
     if lc == "classes=some-empty" {
         mc::count("categorical_empty_class");
@@ -367,22 +393,61 @@ pub fn check(inst: &Inst, obs: &Obs, pred: &Pred) {
                 return;
             }
             let (mut bad_t, mut bad_v) = (None, None);
+            let (mut below, mut above) = (false, false);
             for i in 0..k {
                 for j in 0..p {
                     let (mu, var) = rf.moments(m2r[i], j);
+                    let ratio = mu.abs() / var.sqrt();
+                    max_ratio = max_ratio.max(ratio);
                     if !tol.close(obs.theta[i][j], mu, 1e-12 * scale) && bad_t.is_none() {
                         bad_t = Some((i, j, mu));
                     }
-                    if !tol.close(obs.var[i][j], var, 1e-11 * scale * scale) && bad_v.is_none() {
-                        bad_v = Some((i, j, var));
+                    let vtol = if spread { SPREAD_REL_TOL * var } else { 1e-11 * scale * scale };
+                    if spread && ratio >= 1e7 {
+                        // the region of the known one-pass-variance finding: judged like every other member,
+                        // but the library's numbers must not feed the calibration counters
+                        if !((obs.var[i][j] - var).abs() <= vtol) && bad_v.is_none() {
+                            bad_v = Some((i, j, var, ratio));
+                        }
+                    } else if !tol.close(obs.var[i][j], var, vtol) && bad_v.is_none() {
+                        bad_v = Some((i, j, var, ratio));
                     }
+                    if spread && j == 0 {
+                        if var < mu * mu * f64::EPSILON.sqrt() {
+                            below = true;
+                        } else {
+                            above = true;
+                        }
+                    }
+                }
+            }
+            if spread {
+                if rf.rows.iter().any(|r| r.len() != rf.rows[0].len()) {
+                    mc::count("tiny_spread_class_sizes_differ");
+                }
+                if below {
+                    mc::count("tiny_spread_variance_below_mean2_sqrt_eps");
+                }
+                if below && above {
+                    mc::count("tiny_spread_variance_on_both_sides_of_mean2_sqrt_eps");
+                }
+                if max_ratio >= 1e7 {
+                    mc::count("tiny_spread_known_cancellation_region");
                 }
             }
             if let Some((i, j, mu)) = bad_t {
                 mc::violation(format!("{}.theta:{}", v, lc), format!("{}: theta[class {}][feature {}] = {}, the class mean is {}", inst.brief(), obs.classes[i], j, obs.theta[i][j], mu));
             }
-            if let Some((i, j, var)) = bad_v {
-                mc::violation(format!("{}.var:{}", v, lc), format!("{}: var[class {}][feature {}] = {}, the class (population) variance is {}", inst.brief(), obs.classes[i], j, obs.var[i][j], var));
+            if let Some((i, j, var, ratio)) = bad_v {
+                if spread && ratio >= 1e7 {
+                    // same input class and same site key as the reduced oracle of the `goff` family (known finding)
+                    mc::violation(
+                        format!("{}.var:cancellation,|mean|/sd>=1e7", v),
+                        format!("{}: var[class {}][feature {}] = {}, the class (population) variance is {} (off by more than {} relative)", inst.brief(), obs.classes[i], j, obs.var[i][j], var, SPREAD_REL_TOL),
+                    );
+                } else {
+                    mc::violation(format!("{}.var:{}", v, lc), format!("{}: var[class {}][feature {}] = {}, the class (population) variance is {}", inst.brief(), obs.classes[i], j, obs.var[i][j], var));
+                }
             }
         }
         V::M | V::B => {
@@ -483,6 +548,30 @@ pub fn check(inst: &Inst, obs: &Obs, pred: &Pred) {
     // statistics any more, so the prediction is not judged in that execution.
     if mc::n_violations() > 0 {
         mc::count("predict_not_judged_after_statistics_violation");
+        // informational (tiny-spread family): is the wrong statistic also visible through the predictions?
+        if let (true, Pred::Labels(l)) = (spread, pred) {
+            if l.len() == inst.queries.len() {
+                let scorer = Scorer::new(inst, &rf, &m2r, &prior);
+                let mut off = 0u64;
+                for (qi, q) in inst.queries.iter().enumerate() {
+                    if !(0..p).all(|j| inst.x.iter().any(|r| r[j] == q[j])) {
+                        continue;
+                    }
+                    let sc: Vec<f64> = (0..k).map(|i| scorer.score(i, q)).collect();
+                    let best = sc.iter().cloned().fold(f64::NEG_INFINITY, f64::max);
+                    let ok = match obs.classes.iter().position(|c| *c == l[qi]) {
+                        Some(i) => sc[i] >= best - 1e-10 * best.abs().max(1.0),
+                        None => false,
+                    };
+                    if !ok {
+                        off += 1;
+                    }
+                }
+                if off > 0 {
+                    mc::count_n("tiny_spread_predictions_off_reference_map_after_statistics_violation", off);
+                }
+            }
+        }
         return;
     }
     let mut pkey = format!("{}.predict:{}+{}", v, lc, pc);
@@ -497,7 +586,8 @@ pub fn check(inst: &Inst, obs: &Obs, pred: &Pred) {
             return;
         }
         Pred::Panicked(e) => {
-            mc::violation(format!("{}.predict:panic+{}", v, lc), format!("{}: predict panicked on the query lattice: {}", inst.brief(), e));
+            let key = if spread && max_ratio >= 1e7 { format!("{}.predict:panic,|mean|/sd>=1e7", v) } else { format!("{}.predict:panic+{}", v, lc) };
+            mc::violation(key, format!("{}: predict panicked on the query lattice: {}", inst.brief(), e));
             return;
         }
     };
